@@ -708,6 +708,14 @@ pub fn corpus() -> Vec<(Sent, Vec<Step>)> {
     let t1 = T::pair(x.clone(), T::pair(b.clone(), T::pair(T::pair(a.clone(), hole.clone()), x.clone())));
     c.push((sp.clone(), vec![add(t1.clone()), add(x.clone()), undo(2), add(y.clone())]));
     c.push((sp.clone(), vec![adds(t1.clone()), adds(x.clone()), undo(2), adds(y.clone())]));
+    // a node with the sentinel below it, built once and used in two additions (finding N)
+    let a4 = T::Atom(vec![0x20, 0x13, 0xd4]);
+    let b4 = T::Atom(vec![0xd9, 0x31, 0xac]);
+    let q = T::pair(hole.clone(), a4.clone());
+    c.push((
+        sp.clone(),
+        vec![adds(q.clone()), adds(hole.clone()), adds(T::pair(T::pair(a4.clone(), q.clone()), T::pair(b4.clone(), T::pair(T::Atom(vec![3]), b4.clone())))), adds(b4.clone())],
+    ));
     // sentinel kinds
     c.push((Sent::Atom(vec![5]), vec![add(T::pair(T::Atom(vec![5]), T::Atom(vec![5]))), add(x.clone()), add(x.clone())]));
     c.push((Sent::Atom(vec![]), vec![add(T::pair(x.clone(), T::nil())), add(T::pair(x.clone(), T::Atom(vec![1])))]));
